@@ -589,7 +589,7 @@ func (c *ctx) genFuncs() string {
 	var b strings.Builder
 	b.WriteString("-- GENERATED by /verif/go/extract from /repo on every run. Do not edit; not committed.\n")
 	b.WriteString("-- Lean translations of the listed straight-line Go functions (uintN ↦ BitVec N, int ↦ Int, float64 ↦ Rat and Float).\n")
-	b.WriteString("import SctpVerif.Gen.Consts\nimport SctpVerif.GenPrelude\n\nnamespace Gen\n\n")
+	b.WriteString("import SctpVerif.Gen.Consts\nimport SctpVerif.GenPrelude\n\nset_option linter.unusedVariables false\n\nnamespace Gen\n\n")
 	for _, name := range listed {
 		fd, ok := c.funcs[name]
 		if !ok {
